@@ -1,4 +1,5 @@
 import Netpoll.ShardInv.Final
+import Netpoll.ShardInv.Variant
 /-!
 # C17 – ShardQueue executes every added writer once and flushes it
 
@@ -66,7 +67,7 @@ theorem C17_no_lost_trigger (n : Nat) (s : S) (h : Reachable n s) (hc : InContra
     s.wpc = .idle ∧ s.work = [] ∧
     (∀ (i : Nat) (a : Adder), s.adders[i]? = some a → a.pc = .done ∨ a.pc = .panicked) := by
   have hG := good_reachable n s h
-  obtain ⟨ht, hw, hA⟩ := quiescent_settled s hG hc hq
+  obtain ⟨ht, hw, hA⟩ := quiescent_settled s hG hc (quiescentQ_of_quiescent s hq)
   have hall : ∀ (i : Nat) (a : Adder), s.adders[i]? = some a → a.pc = .state ∨ a.pc = .done ∨ a.pc = .panicked :=
     fun i a ha => Or.inr (hA i a ha)
   obtain ⟨h1, h2, h3, _⟩ := idle_all_handled s hG hc.2.1 ht hall
@@ -82,7 +83,7 @@ theorem C17_exactly_once_flushed (n : Nat) (s : S) (h : Reachable n s) (hc : InC
     (s.ignored.count id = 1 ∧ s.invoked.count id = 0 ∨
      s.ignored.count id = 0 ∧ s.invoked.count id = 1 ∧ s.notApp.count id + s.sent.count id = 1) := by
   have hG := good_reachable n s h
-  obtain ⟨ht, hw, hA⟩ := quiescent_settled s hG hc hq
+  obtain ⟨ht, hw, hA⟩ := quiescent_settled s hG hc (quiescentQ_of_quiescent s hq)
   have hall : ∀ (i : Nat) (a : Adder), s.adders[i]? = some a → a.pc = .state ∨ a.pc = .done ∨ a.pc = .panicked :=
     fun i a ha => Or.inr (hA i a ha)
   obtain ⟨_, _, _, h4⟩ := idle_all_handled s hG hc.2.1 ht hall
@@ -109,7 +110,7 @@ theorem C17_quiescent_accounted (n : Nat) (s : S) (h : Reachable n s) (hc : InCo
     (id : Nat) (hid : id < s.nextId) :
     s.ignored.count id + s.skipped.count id + s.invoked.count id = 1 := by
   have hG := good_reachable n s h
-  obtain ⟨ht, hw, hA⟩ := quiescent_settled s hG hc hq
+  obtain ⟨ht, hw, hA⟩ := quiescent_settled s hG hc (quiescentQ_of_quiescent s hq)
   have hall : ∀ (i : Nat) (a : Adder), s.adders[i]? = some a → a.pc = .state ∨ a.pc = .done ∨ a.pc = .panicked :=
     fun i a ha => Or.inr (hA i a ha)
   obtain ⟨_, _, _, h4⟩ := idle_all_handled s hG hc.2.1 ht hall
@@ -132,6 +133,49 @@ example : ∃ s, Reachable 2 s ∧ InContract s ∧ Quiescent s ∧ s.alive = tr
     s.invoked = [0, 1, 2] ∧ s.sent = [0, 1, 2] ∧ s.trigger = 0 := by
   refine ⟨final 2 demo, reachable_final _ _ (by decide), by decide, ?_, by decide⟩
   exact quiescent_of_settled _ (by decide) (by decide) (by decide)
+
+/-! ## termination under fairness: a variant, and no deadlock -/
+
+/-- **variant**: every step of an Add call, of the loop worker or of a tail worker strictly decreases
+    the lexicographic measure `(mA, mB, mC)` (remaining adder steps; spawns still possible while no adder
+    moves; ring entries, queued getters and program-counter positions) -/
+theorem C17_variant (n : Nat) (s s' : S) (a : Act) (h : Reachable n s) (hq : a.isQueue = true)
+    (hs : step s a = some s') : mLt s' s := by
+  have hG := good_reachable n s h
+  cases a with
+  | add _ => cases hq
+  | close => cases hq
+  | die => cases hq
+  | closer _ => cases hq
+  | adder i => exact Or.inl (variant_adder s s' i hs)
+  | wk nl e => have := variant_worker s s' nl e hG.tr hG.ids hs; exact Or.inr this
+  | tail pc => have := variant_tail s s' pc hs; exact Or.inr this
+
+/-- the order of the variant is well-founded: between two environment actions only finitely many
+    Add / worker steps can happen, whatever the schedule -/
+theorem C17_variant_wf : WellFounded mLt := mLt_wf
+
+/-- Close calls never change the variant, and once `trigger = 0` each of their steps decreases `mD`
+    (so a polling Close finishes after at most three more steps) -/
+theorem C17_closer_variant (s s' : S) (pc : CPc) (hs : step s (.closer pc) = some s') :
+    mA s' = mA s ∧ mB s' = mB s ∧ mC s' = mC s ∧ (s.trigger = 0 → mD s' < mD s) :=
+  variant_closer s s' pc hs
+
+/-- **no deadlock**: in an in-contract execution, as long as an Add call, the loop worker or a tail worker
+    is in flight, one of them can take a step; and when none can, `trigger = 0` – so under a fair
+    scheduler (every enabled actor eventually moves) and finitely many Add calls the queue reaches the
+    state of `C17_no_lost_trigger`, and polling Close calls then return by `C17_closer_variant`. -/
+theorem C17_no_deadlock (n : Nat) (s : S) (h : Reachable n s) (hc : InContract s) (hq : QuiescentQ s) :
+    s.trigger = 0 ∧ s.wpc = .idle ∧ s.tRecheck + s.tRun + s.tSpawn + s.tCas = 0 ∧
+    (∀ (i : Nat) (a : Adder), s.adders[i]? = some a → a.pc = .done ∨ a.pc = .panicked) := by
+  have hG := good_reachable n s h
+  obtain ⟨ht, hw, hA⟩ := quiescent_settled s hG hc hq
+  obtain ⟨c1, c2, c3, c4⟩ := quiescent_tails s hq
+  exact ⟨ht, hw, by omega, hA⟩
+
+/-- non-vacuity: a reachable state in which the worker is about to start on two ring entries and three getters -/
+example : ∃ s, Reachable 2 s ∧ (step s (.wk false false)).isSome = true ∧ mA s = 0 ∧ mB s = 0 ∧ mC s = 26 :=
+  ⟨final 2 ([.add 1, .add 2] ++ rep 11 (.adder 0) ++ rep 9 (.adder 1)), reachable_final _ _ (by decide), by decide⟩
 
 /-! ## Close -/
 
